@@ -41,7 +41,11 @@ def main():
       if args and not any(a in sid for a in args):
         continue
       meta = json.load(open(os.path.join(d, sid, 'meta.json')))
-      todo.append((kind, sid, meta['property']))
+      if meta.get('deliberately_not_caught'):
+        kind_here = 'outside'      # recorded, expected NOT to be reported
+      else:
+        kind_here = kind
+      todo.append((kind_here, sid, meta['property']))
   base = tempfile.mkdtemp(prefix='mm_scratch.')
   running, results = [], {}
   t0 = time.time()
@@ -54,7 +58,8 @@ def main():
                         os.path.join(root, 'matched_markets'),
                         ignore=shutil.ignore_patterns(
                             '__pycache__', 'notebook', 'csv', 'docs'))
-        patch = os.path.join(VERIF, kind, sid, 'patch.diff')
+        patch = os.path.join(VERIF, 'benign' if kind == 'benign' else 'seeded',
+                             sid, 'patch.diff')
         p = subprocess.run(['patch', '-p1', '-s', '-i', patch], cwd=root,
                            capture_output=True, text=True)
         if p.returncode != 0:
@@ -83,6 +88,9 @@ def main():
         if kind == 'seeded':
           ok = proc.returncode == 1 and ('VIOLATION property=%s ' % prop) in text
           verdict = 'CAUGHT' if ok else 'MISSED'
+        elif kind == 'outside':
+          ok = proc.returncode == 0
+          verdict = 'HOLDS' if ok else 'REPORTED'
         else:
           ok = proc.returncode == 0
           verdict = 'HOLDS' if ok else 'FALSE-ALARM'
